@@ -24,12 +24,21 @@ from .. import docgen as D
 PID = 'C16'
 
 DOCS = [
-    [['ns', ['A'], [['enum', 'E', ['X']],
+    # D0 and D1 declare the SAME fully qualified names for every kind of declaration, with different payloads
+    [['ns', ['A'], [['enum', 'E', ['X']], ['extern', 'T', 'int'],
                     ['interface', 'I', [['enum', 'R', ['Ok']], ['subint', 'S', 0, 1]],
-                     [['e', 'in', ['R'], []]]]]],
-     ['component', 'C', [['p', ['A', 'I'], 'provides', False]]], ['filename', 'd0.dzn']],
-    [['ns', ['A'], [['enum', 'E', ['Y', 'Z']], ['extern', 'T', 'int']]],
-     ['component', 'C', []], ['import', 'x.dzn'], ['subint', 'S', 2, 3]],
+                     [['e', 'in', ['R'], []]]],
+                    ['foreign', 'F', [['fp', ['I'], 'provides', False]]]]],
+     ['subint', 'S', 0, 9],
+     ['component', 'C', [['p', ['A', 'I'], 'provides', False]]],
+     ['system', 'Sys', [['sp', ['A', 'I'], 'provides', False]], [['c', ['C']]], [[['sp', None], ['p', 'c']]]],
+     ['filename', 'd0.dzn']],
+    [['ns', ['A'], [['enum', 'E', ['Y', 'Z']], ['extern', 'T', 'long'],
+                    ['interface', 'I', [['enum', 'R', ['No', 'Ok']], ['enum', 'R2', ['Q']]],
+                     [['e', 'in', ['void'], [['a', ['T'], 'in']]], ['f', 'out', ['void'], []]]],
+                    ['foreign', 'F', []]]],
+     ['component', 'C', []], ['import', 'x.dzn'], ['subint', 'S', 2, 3],
+     ['system', 'Sys', [], [['c', ['C']], ['f', ['A', 'F']]], []]],
     # fails half-way, INSIDE a (nested) namespace, after some declarations were already parsed
     [['enum', 'Early', ['P']], ['ns', ['A'], [['extern', 'T', 'long'], ['ns', ['Deep'], [
         ['junk', {'<class>': 'component', 'name': D.sn(['Broken'])}]]]]], ['enum', 'Late', ['Q']]],
